@@ -313,7 +313,7 @@ func vNewDiskNode(clock *vCrashClock, ldb *vSSLogDB, fs gvfs.FS, usm *vDiskSM) *
 // initial recover) the replica is not older than the snapshot recorded in its
 // log store: either its own data covers the snapshot or the snapshot still
 // carries the data.
-//vcheck: reach=crashed-mid-way,no-crash,restarted-from-own-data,restarted-from-snapshot,done workers=16 forbid="."
+//vcheck: reach=crashed-mid-way,no-crash,restarted-from-own-data,restarted-from-snapshot,second-life-crashed-mid-way,done workers=16 forbid="."
 func VHarness_C16_OnDiskRecoverCrash() {
 	mem := gvfs.NewStrictMem()
 	clock := &vCrashClock{mem: mem, crashAt: -1}
@@ -342,7 +342,8 @@ func VHarness_C16_OnDiskRecoverCrash() {
 	vAssert(n.logReader.ApplySnapshot(ss) == nil, "logreader-snapshot")
 	vAssert(n.snapshotter.removeFlagFile(50) == nil, "recv-flag-removed")
 	// from here on the power may fail
-	clock.crashAt = clock.syncs + vChoose("crashAtEvent", 17)
+	firstCrash := vChoose("crashAtEvent", 17)
+	clock.crashAt = clock.syncs + firstCrash
 	idx, err := n.recover(rsm.Task{Recover: true, Index: 50})
 	vAssert(err == nil && idx == 50, "recover-ok")
 	vAssert(usm.current == 50, "recovered-data-in-place")
@@ -360,10 +361,33 @@ func VHarness_C16_OnDiskRecoverCrash() {
 	usm2 := &vDiskSM{clock: clock, current: usm.durable, durable: usm.durable}
 	n2 := vNewDiskNode(clock, ldb2, fs, usm2)
 	vAssert(n2.snapshotter.processOrphans() == nil, "startup-cleanup-ok")
+	// when the first life ended right after the snapshot was recorded (nothing of
+	// the recovery durable), the second life loads the full snapshot in its
+	// initial recovery - and the power may fail again during that
+	secondCrash := firstCrash == 0
+	if secondCrash {
+		clock.crashAt = clock.syncs + vChoose("crashAtEventOfSecondLife", 9)
+	}
 	_, err = n2.recover(rsm.Task{Recover: true, Initial: true})
 	vAssert(err == nil, "restart-recover-ok")
 	vAssert(ldb2.durable.Index == 50, "record-was-durable-before-recovery-started")
 	vAssert(usm2.current >= ldb2.durable.Index, "not-older-than-the-recorded-snapshot")
+	if secondCrash {
+		mem.SetIgnoreSyncs(true)
+		mem.ResetToSyncedState()
+		mem.SetIgnoreSyncs(false)
+		if clock.crashed {
+			vReach("second-life-crashed-mid-way")
+		}
+		clock.crashAt, clock.crashed = -1, false
+		ldb3 := &vSSLogDB{clock: clock, current: ldb2.durable, durable: ldb2.durable}
+		usm3 := &vDiskSM{clock: clock, current: usm2.durable, durable: usm2.durable}
+		n3 := vNewDiskNode(clock, ldb3, fs, usm3)
+		vAssert(n3.snapshotter.processOrphans() == nil, "second-startup-cleanup-ok")
+		_, err = n3.recover(rsm.Task{Recover: true, Initial: true})
+		vAssert(err == nil, "second-restart-recover-ok")
+		vAssert(usm3.current >= ldb3.durable.Index, "not-older-than-the-recorded-snapshot-after-the-second-restart")
+	}
 	if usm.durable >= 50 {
 		vReach("restarted-from-own-data")
 	} else {
